@@ -190,7 +190,7 @@ def _carquet_fn(stack_text):
         if '/src/' in loc and '/drivers/' not in loc:
             return fn
     m = re.search(r'#\d+ 0x[0-9a-f]+ in (\S+)', stack_text)
-    return m.group(1) if m else 'unknown'
+    return 'HARNESS/' + (m.group(1) if m else 'unknown')
 
 
 def classify_sanitizer(text, returncode=None):
@@ -300,6 +300,10 @@ class Check:
         key, adv = classify_sanitizer(text, returncode)
         if adv:
             self.count('advisory_ub', adv)
+        if key and 'HARNESS/' in key and not key.startswith('lsan'):
+            # the innermost frames are all outside /repo/src: a defect of the driver, not of carquet
+            self.fail_harness('sanitizer report inside the harness (%s): %s\n%s' % (key, ctx_what, text[-1500:]))
+            return True
         if key:
             self.violation(key, ctx_what, files=files, text=text)
             return True
